@@ -203,7 +203,7 @@ pub fn classify(a: &Outcome, b: &Outcome) -> Option<(String, String, String)> {
         return Some((
             class.into(),
             format!("{}:{}", class, t.join("+")),
-            format!("diagnostic text differs between two hash seeds ({})", class),
+            format!("diagnostic text differs between two simulated processes (hash keys, process id, time of day) ({})", class),
         ));
     }
     if a.panic != b.panic {
